@@ -78,62 +78,69 @@ theorem runSteps_some (steps : List (World → World × Option Exc)) (w : World)
 
 theorem setSelector_store (w : World) (s : Selector) : (w.setSelector s).store = w.store := rfl
 
+theorem mcFinalStep_stable (p : CppPortItf) : StoreStable (mcFinalStep p) := by
+  intro w'
+  unfold mcFinalStep
+  split
+  · exact ⟨rfl, rfl⟩
+  · split
+    · exact ⟨rfl, rfl⟩
+    · split <;> exact ⟨rfl, rfl⟩
+
+/-- whatever statement the generated body contains, its step keeps the handler store -/
+theorem stmtStep_stable (ir : ShellIR) (parent : Bool) (s : Str) (f : World → World × Option Exc)
+    (h : stmtStep ir parent s = some f) : StoreStable f := by
+  unfold stmtStep at h
+  split at h
+  · injection h with h; subst h; intro w'; exact ⟨rfl, rfl⟩
+  · split at h
+    · injection h with h; subst h; intro w'; exact ⟨rfl, rfl⟩
+    · split at h
+      · injection h with h; subst h; exact mcFinalStep_stable _
+      · split at h
+        · injection h with h; subst h; intro w'; exact ⟨rfl, rfl⟩
+        · cases h
+
 theorem steps_stable (w : World) (parent : Bool) : ∀ s ∈ finalStep w parent, StoreStable s := by
   intro s hs
-  simp only [finalStep, List.mem_append, List.mem_map, List.mem_cons, List.not_mem_nil,
-    or_false] at hs
-  rcases hs with ((⟨p, _, rfl⟩ | ⟨p, _, rfl⟩) | ⟨p, _, rfl⟩) | (rfl | rfl)
-  · intro w'
-    simp only
-    split
-    · exact ⟨rfl, rfl⟩
-    · split
-      · exact ⟨rfl, rfl⟩
-      · split <;> exact ⟨rfl, rfl⟩
-  · intro w'; exact ⟨rfl, rfl⟩
-  · intro w'; exact ⟨rfl, rfl⟩
-  · intro w'; exact ⟨rfl, rfl⟩
-  · intro w'; exact ⟨rfl, rfl⟩
+  unfold finalStep at hs
+  obtain ⟨st, _, hst⟩ := List.mem_filterMap.mp hs
+  exact stmtStep_stable _ _ _ _ hst
 
-/-- **detection (boundary)**: if a single event of an exposed, non-multi-client port is left
-    unbound on the boundary object the shell checks for it (the component's own port for STS, the
-    boundary port for MTS), final construction does not return normally -/
+/-- **detection (boundary)**: if the generated body contains the statement that checks the bindings
+    of an exposed, non-multi-client port, and a single event of that port is left unbound on the
+    object the statement addresses (the component's own port for STS, the boundary member for MTS),
+    final construction does not return normally -/
 theorem detect_unbound_boundary (w : World) (parent : Bool) (p : CppPortItf)
-    (hp : p ∈ w.ir.provides.filter (!·.isMc) ∨ p ∈ w.ir.requires)
+    (hstmt : ∃ s ∈ w.ir.finalConstruct, stmtStep w.ir parent s = some (checkStep p))
     (e : Event) (he : e ∈ p.dzn.itf.events)
-    (hun : w.get ⟨(if p.dzn.sem = .sts then RObj.enc p.name else .bnd p.target), evDirOf e, e.name⟩ = none) :
+    (hun : w.get ⟨boundaryObj p, evDirOf e, e.name⟩ = none) :
     (finalConstruct w parent).2.isSome = true := by
   unfold finalConstruct
-  let objOf := fun (p : CppPortItf) => if p.dzn.sem = .sts then RObj.enc p.name else .bnd p.target
-  let chk : CppPortItf → World → World × Option Exc :=
-    fun p w => (w, checkPort w (objOf p) p.dzn.itf (pathOf w p.name))
-  apply runSteps_some _ w (steps_stable w parent) (chk p)
-  · simp only [finalStep, List.mem_append, List.mem_map, List.mem_cons]
-    rcases hp with hp | hp
-    · exact Or.inl (Or.inl (Or.inr ⟨p, hp, rfl⟩))
-    · exact Or.inl (Or.inr ⟨p, hp, rfl⟩)
+  apply runSteps_some _ w (steps_stable w parent) (checkStep p)
+  · obtain ⟨s, hs, hst⟩ := hstmt
+    exact List.mem_filterMap.mpr ⟨s, hs, hst⟩
   · intro w' hw' _
-    show (checkPort w' (objOf p) p.dzn.itf (pathOf w' p.name)).isSome = true
-    cases hc : checkPort w' (objOf p) p.dzn.itf (pathOf w' p.name) with
+    show (checkPort w' (boundaryObj p) p.dzn.itf (pathOf w' p.name)).isSome = true
+    cases hc : checkPort w' (boundaryObj p) p.dzn.itf (pathOf w' p.name) with
     | some x => rfl
     | none =>
       have := (checkPort_none_iff w' _ _ _).mp hc e he
-      have hg : w'.get ⟨objOf p, evDirOf e, e.name⟩ = w.get ⟨objOf p, evDirOf e, e.name⟩ := by
+      have hg : w'.get ⟨boundaryObj p, evDirOf e, e.name⟩ = w.get ⟨boundaryObj p, evDirOf e, e.name⟩ := by
         simp only [World.get, hw']
       rw [hg, hun] at this
       cases this
 
-/-- **detection (component)**: an unbound event on any of the wrapped component's own ports
-    (injected ones included) is detected as well -/
+/-- **detection (component)**: if the body contains `m_encapsulee.check_bindings();`, an unbound
+    event on any of the wrapped component's own ports (injected ones included) is detected as well -/
 theorem detect_unbound_component (w : World) (parent : Bool) (p : Port) (itf : InterfaceD)
+    (hstmt : L "m_encapsulee.check_bindings();" ∈ w.ir.finalConstruct)
     (hp : (p, itf) ∈ w.allPorts) (e : Event) (he : e ∈ itf.events)
     (hun : w.get ⟨.enc p.name, evDirOf e, e.name⟩ = none) :
     (finalConstruct w parent).2.isSome = true := by
   unfold finalConstruct
-  let encStep : World → World × Option Exc := fun (w : World) =>
-    (w, w.allPorts.findSome? (fun (p, itf) => checkPort w (.enc p.name) itf (pathOf w p.name)))
-  apply runSteps_some _ w (steps_stable w parent) encStep
-  · simp [finalStep, encStep]
+  apply runSteps_some _ w (steps_stable w parent) encCheckStep
+  · exact List.mem_filterMap.mpr ⟨_, hstmt, by simp [stmtStep]⟩
   · intro w' hw' hap
     show (w'.allPorts.findSome? _).isSome = true
     rw [List.findSome?_isSome_iff]
@@ -147,6 +154,45 @@ theorem detect_unbound_component (w : World) (parent : Bool) (p : Port) (itf : I
         simp only [World.get, hw']
       rw [hg, hun] at this
       cases this
+
+/-- **detection (client ports of a multi-client port)**: if the body contains
+    `<selector>.FinalConstruct();` and some registered client port has an unbound event, final
+    construction does not return normally either -/
+theorem detect_unbound_client (w : World) (parent : Bool) (p : CppPortItf)
+    (hstmt : ∃ s ∈ w.ir.finalConstruct, stmtStep w.ir parent s = some (mcFinalStep p))
+    (hsel : ∀ w' : World, w'.store = w.store → ∃ sel, w'.selector p.target = some sel ∧
+        (sel.finalConstructed = true ∨ ∃ id ∈ sortedIds sel.clients, ∃ e ∈ p.dzn.itf.events,
+          w.get ⟨.client p.target id, evDirOf e, e.name⟩ = none)) :
+    (finalConstruct w parent).2.isSome = true := by
+  unfold finalConstruct
+  apply runSteps_some _ w (steps_stable w parent) (mcFinalStep p)
+  · obtain ⟨s, hs, hst⟩ := hstmt
+    exact List.mem_filterMap.mpr ⟨s, hs, hst⟩
+  · intro w' hw' _
+    obtain ⟨sel, hs, hcase⟩ := hsel w' hw'
+    unfold mcFinalStep
+    simp only [hs]
+    rcases hcase with hfc | ⟨id, hid, e, he, hun⟩
+    · simp [hfc]
+    · by_cases hfc : sel.finalConstructed = true
+      · simp [hfc]
+      · simp only [hfc, Bool.false_eq_true, if_false]
+        have : ((sortedIds sel.clients).findSome? (fun id =>
+            checkPort w' (.client p.target id) p.dzn.itf (L "<external>.arbiter" ++ capOf p.name))).isSome = true := by
+          rw [List.findSome?_isSome_iff]
+          refine ⟨id, hid, ?_⟩
+          cases hc : checkPort w' (.client p.target id) p.dzn.itf (L "<external>.arbiter" ++ capOf p.name) with
+          | some x => rfl
+          | none =>
+            have := (checkPort_none_iff w' _ _ _).mp hc e he
+            have hg : w'.get ⟨.client p.target id, evDirOf e, e.name⟩ = w.get ⟨.client p.target id, evDirOf e, e.name⟩ := by
+              simp only [World.get, hw']
+            rw [hg, hun] at this
+            cases this
+        cases hf : (sortedIds sel.clients).findSome? (fun id =>
+            checkPort w' (.client p.target id) p.dzn.itf (L "<external>.arbiter" ++ capOf p.name)) with
+        | some x => rfl
+        | none => rw [hf] at this; cases this
 
 /-- **locked**: once a multi-client selector is final constructed no client can be registered,
     while identifiers registered before still resolve -/
